@@ -13,7 +13,7 @@ out = {}
 for year in (2021, 2022, 2023):
     retmodel.preload([(year, 1, {'S': 2, 'ft': 'uf', 'cents': True})])
     os.environ['HV_PRELOADED'] = '1'
-    lf = retmodel.Lifter(year, 1, 2, ['1040', 'nc_d-400'], timeout_ms=30000)
+    lf = retmodel.Lifter(year, 1, 2, sys.argv[1].split(','), timeout_ms=30000)
     rm = lf.rm
     I = rm.cat.hab_inputs
     gates = []
@@ -35,4 +35,4 @@ for year in (2021, 2022, 2023):
         if r == 'unsat' and r0 == 'sat':
             gates.append({'input': name, 'description': inp.help()[:160]})
     out[str(year)] = gates
-json.dump(out, open(os.path.join(os.path.dirname(os.path.dirname(os.path.abspath(__file__))), 'oracle', 'gates.generated.json'), 'w'), indent=1)
+json.dump(out, open(os.path.join(os.path.dirname(os.path.dirname(os.path.abspath(__file__))), 'oracle', 'gates.generated.%s.json' % sys.argv[1].replace(',', '+')), 'w'), indent=1)
